@@ -32,7 +32,10 @@ RULE = ("table-driven (vlib/c09_table.py): %d object kinds (locators) x their re
         "Values per row: interior, boundary (domain ends, documented defaults), quantum-adjacent "
         "(k*q +- q/2 for q = 1/100 pt, 1/60000 deg, 1/100000), documented None, out-of-domain "
         "(beyond the range, wrong type, XML-less enum members). Every row is the first assignment "
-        "of its own batch of cases; later assignments pick any row of the same object. Non-trivial: "
+        "of its own batch of cases; later assignments pick any row of the same object. Companion cases: a "
+        "second object on the same shape / chart (31 documented-independent pairs, e.g. fill colour and line colour, "
+        "chart and axis, plot and point label) is prepared and given non-default settings first; preparing and "
+        "assigning to the object under test, saves and re-opens must leave all its readings alone. Non-trivial: "
         "some value is boundary / quantum-adjacent / out-of-domain / None, or >=2 different "
         "properties are assigned, or the case re-opens. Distinct by hash of the whole case.")
 ASSUMPTIONS = [
@@ -293,16 +296,56 @@ def run_case(case, rec=None, count=True):
     KK = "C09:%s" % kind.key
     prs, base, kind = open_case(case)
     anchor_path = base + kind.sub
+    comp = comp_full = comp_before = None
+    if case.get("companion"):
+        # another object on the same shape / chart, prepared and given non-default settings first: nothing that
+        # happens to the object under test afterwards (its preparation included) may change what it reads
+        comp = T.kind(case["companion"])
+        if comp.build is not kind.build:
+            raise core.HarnessError("companion %s is not built like %s" % (comp.name, kind.name))
+        canchor = base + comp.sub
+        with core.sut("C09:%s:companion-setup" % comp.key):
+            if comp.prepare is not None:
+                comp.prepare(T.resolve(prs, canchor)[-1])
+            comp_full = canchor + comp.sub2
+            cobj = T.resolve(prs, comp_full)[-1]
+            for crow in comp.rows:
+                v = T.sample_value(crow.dom)
+                if v is not None:
+                    do_set(crow, cobj, T.decode(v))
+        snapshot(comp, T.resolve(prs, comp_full))
+        comp_before = snapshot(comp, T.resolve(prs, comp_full))
+
+    def check_companion(prs_now, where):
+        if comp is None:
+            return
+        try:
+            cchain = T.resolve(prs_now, comp_full)
+        except Exception as e:
+            if core.origin_of(e)[0] != "sut":
+                raise
+            raise Violation("%s:other-object=%s:unreachable" % (KK, comp.cls),
+                            "%s: the %s on the same shape, reachable and set up before, can no longer be reached: %s: %s"
+                            % (where, comp.name, type(e).__name__, str(e)[:150]))
+        now = snapshot(comp, cchain)
+        bad = _diff(comp_before, now)
+        if bad:
+            n = bad[0]
+            raise Violation("%s:other-object=%s.%s" % (KK, comp.cls, n),
+                            "%s: reading %s of the %s on the same shape changed from %r to %r"
+                            % (where, n, comp.name, comp_before[n], now[n]))
+
     if kind.prepare is not None:
         anchor = T.resolve(prs, anchor_path)[-1]
         kind.prepare(anchor)
+        check_companion(prs, "%s: preparing the object (%s)" % (kind.name, kind.prepare.__name__))
     full = anchor_path + kind.sub2
     chain = T.resolve(prs, full)
     snapshot(kind, chain)  # warm-up: getters with get-or-add side effects settle here
     readings = kind.readings()
     steps = case["steps"]
     reopen = set(case.get("reopen", ()))
-    classes = ["kind:" + kind.name, "src:" + ("fresh" if case["src"] == "fresh" else "corpus"),
+    classes = (["companion:%s+%s" % (kind.name, comp.name)] if comp is not None else []) + ["kind:" + kind.name, "src:" + ("fresh" if case["src"] == "fresh" else "corpus"),
                "len:%d" % len(steps)]
     props = set()
     nontrivial = len(reopen) > 0
@@ -325,6 +368,7 @@ def run_case(case, rec=None, count=True):
             raise Violation("%s:reopen:reading=%s" % (KK, n),
                             "%s (%s): reading %s is %r before save and %r after re-open; steps so far %r"
                             % (kind.name, case["src"], n, before[n], after[n], steps))
+        check_companion(prs2, "%s: save and re-open" % kind.name)
         return chain2
 
     try:
@@ -369,6 +413,7 @@ def run_case(case, rec=None, count=True):
                     raise Violation("%s:set=%s:rejected-changes-state" % (K, prop),
                                     "%s was rejected but reading %s changed from %r to %r (all changed: %s)"
                                     % (where, n, before[n], after[n], bad))
+                check_companion(chain[0], where + " (rejected)")
                 continue
             with core.sut("%s:set=%s" % (K, prop)):
                 do_set(row, obj, value)
@@ -414,6 +459,7 @@ def run_case(case, rec=None, count=True):
                 n = bad[0]
                 raise Violation("%s:set=%s:sibling=%s" % (K, prop, n),
                                 "%s: reading %s changed from %r to %r" % (where, n, before[n], after[n]))
+            check_companion(chain[0], where)
         if len(steps) in reopen:
             chain = do_reopen(chain)
             classes.append("reopen:end")
@@ -453,6 +499,10 @@ def jobs(tier):
         b[0] += cost
         b[1].append([kname, prop])
     js = [{"mode": "fresh", "sites": b[1], "n": n, "shard": i} for i, b in enumerate(bins) if b[1]]
+    # companion pairs: the acting kind's sequences with a second, prepared object on the same shape / chart
+    pairs = [list(p) for p in T.COMPANIONS]
+    for i in range(8):
+        js.append({"mode": "companion", "pairs": pairs[i::8], "n": 300 if tier == "thorough" else 24, "shard": i})
     from vlib import corpus
 
     decks = corpus.corpus_decks()
@@ -489,6 +539,16 @@ def run_job(job, seed, tier, rec, known):
         if job["shard"] == 0:
             rec.extra["rows_enabled"] = T.row_ids()
             rec.extra["rows_not_enabled"] = list(T.UNVERIFIED)
+        return _dedupe(fails)
+    if job["mode"] == "companion":
+        for j, (k1, k2) in enumerate(job["pairs"]):
+            if not (_only(k1) or _only(k2)):
+                continue
+            kind = T.kind(k1)
+            strat = case_strategy(kind, None, "fresh").map(lambda c, k2=k2: dict(c, companion=k2))
+            fails += hyp_search(lambda c: run_case(c, rec), strat, seed=seed * 173 + j,
+                                max_examples=job["n"], rec=rec, known=known, shrink_budget=120)
+        rec.cls("companion-pairs:%d" % len(job["pairs"]))
         return _dedupe(fails)
     if job["mode"] == "corpus":
         from pptx import Presentation
